@@ -86,6 +86,7 @@ pub struct Report {
     pub seed: i64,
     pub start: Instant,
     pub wall_cap_s: f64,
+    pub rss_cap: u64,
     evaluations: AtomicU64,
     transitions: AtomicU64,
     traces: AtomicU64,
@@ -126,6 +127,11 @@ impl Report {
             seed,
             start: Instant::now(),
             wall_cap_s,
+            rss_cap: std::env::var("VERIF_RSS_CAP_MB")
+                .ok()
+                .and_then(|s| s.parse::<u64>().ok())
+                .unwrap_or(24 * 1024)
+                << 20,
             evaluations: AtomicU64::new(0),
             transitions: AtomicU64::new(0),
             traces: AtomicU64::new(0),
@@ -208,6 +214,15 @@ impl Report {
         }
     }
     pub fn check_deadline(&self) {
+        if let Some(rss) = rss_bytes() {
+            if rss > self.rss_cap {
+                self.exhaustive.store(false, Ordering::Relaxed);
+                self.machinery_failure(format!(
+                    "resident-set cap of {} MiB hit; run is not exhaustive",
+                    self.rss_cap >> 20
+                ));
+            }
+        }
         if self.start.elapsed().as_secs_f64() > self.wall_cap_s {
             self.exhaustive.store(false, Ordering::Relaxed);
             self.machinery_failure(format!(
@@ -503,4 +518,10 @@ pub fn write_replay(v: &Violation) -> String {
     let path = format!("{dir}/{}-{:012x}.json", v.prop, h & 0xffff_ffff_ffff);
     let _ = std::fs::write(&path, text + "\n");
     path
+}
+
+fn rss_bytes() -> Option<u64> {
+    let s = std::fs::read_to_string("/proc/self/statm").ok()?;
+    let pages: u64 = s.split_whitespace().nth(1)?.parse().ok()?;
+    Some(pages * 4096)
 }
